@@ -55,6 +55,9 @@ def rand_weights(rng, n, units, klass, monos=None):
         v = tfimpl.dy(rng, -64, 64)
       elif klass == "tiny":
         v = rng.choice([0.0, 1e-9, -1e-9, 2e-9])
+      elif klass == "small":
+        # column norms around 1e-5: far above the "numerically zero" guard (1e-8), so still normalised
+        v = rng.choice([-3, -1, 0, 1, 2, 5]) * 2.0 ** -17
       else:
         v = tfimpl.dy(rng)
       if klass == "signfeasible" and monos and monos[i] != 0:
@@ -104,8 +107,13 @@ def gen_descs(ctx):
           a = tfimpl.dy(rng, -4, 4)
           lo[i], hi[i] = a, a + rng.choice([0.5, 1.0, 2.0, 3.0])
         rdom = [[b, a] for a, b in rand_dag(rng, sub, 2 * k)]
+    if rdom and rng.random() < 0.3:
+      # every input has the SAME range (a shortcut "all scalings equal => skip the rescaling" is wrong for
+      # decreasing inputs, whose scaling also flips the sign)
+      a, w = tfimpl.dy(rng, -2, 2), rng.choice([0.5, 1.0, 2.0])
+      lo, hi = [a] * n, [a + w] * n
     norm = rng.choice([None, None, 1, 2])
-    klass = rng.choice(["random", "random", "ties", "zeros", "far", "signfeasible", "tiny"])
+    klass = rng.choice(["random", "random", "ties", "zeros", "far", "signfeasible", "tiny", "small"])
     W = rand_weights(rng, n, units, klass, monos)
     out.append(dict(kind="linear", n=n, units=units, monos=monos, mdom=mdom, rdom=rdom, lo=lo, hi=hi,
                     norm=norm, W=W, wclass=klass))
